@@ -28,6 +28,9 @@ pub fn case(tape: &[u8], ctx: &Ctx) -> Outcome {
     let mut plan = gen_plan(&mut t, &po);
     plan.canonical = true;
     plan.cycles = plan.cycles.min(40);
+    if std::env::var("VERIF_TRACE").is_ok() {
+        eprintln!("CASE {} data {} dict {:?} gz {} [{}]", plan.cfg.describe(), plan.data.len(), plan.dict.as_ref().map(|d| d.len()), plan.gz.is_some(), plan.describe_ops());
+    }
     let t0 = std::time::Instant::now();
     let ng = ARENAS2.with(|ar| run_deflate::<Ng>(&plan, ar));
     let t_ng = t0.elapsed();
@@ -93,5 +96,5 @@ pub fn case(tape: &[u8], ctx: &Ctx) -> Outcome {
 }
 
 pub fn property() -> Property {
-    Property { id: "C12", rule: RULE, phases: vec![Phase::Prop { name: "deflate sessions in lock-step with zlib-ng", f: case, quick: 60_000, thorough: 2_000_000, max_tape: 320 }] }
+    Property { id: "C12", rule: RULE, phases: vec![Phase::Prop { name: "deflate sessions in lock-step with zlib-ng", f: case, quick: 400_000, thorough: 4_000_000, max_tape: 320 }] }
 }
